@@ -44,16 +44,30 @@ pub fn run(out: &mut Out, seed: u64, tier: &str) {
         let mut w = Wrapper::from_atomic_symbols(&refs);
         let mut ops: Vec<String> = vec![];
         let mut outs: Vec<String> = vec![state(&w)];
-        let len = 2 + rng.below(if tier == "thorough" { 11 } else { 7 });
+        // one sequence in six alternates set_coordinates / generate_connectivty while one pair of atoms is moved by a few 1e-9 A back and
+        // forth across its bonding distance: the smallest move that changes what the connectivity must be
+        let straddle = s >= 10 && s % 6 == 4 && m.n() >= 2;
+        let (si, sj) = { let i = rng.below(m.n()); let mut j = rng.below(m.n()); if j == i { j = (i + 1) % m.n(); } (i, j) };
+        let sdelta = *rng.pick(&[4e-9, 2e-9, 9e-9, 1e-10, 3e-8]);
+        let len = if straddle { 6 } else { 2 + rng.below(if tier == "thorough" { 11 } else { 7 }) };
         for k in 0..len {
-            let choice = if k == 0 { 0 } else { rng.below(10) };
+            let choice = if straddle { if k % 2 == 0 { 0 } else { 3 } } else if k == 0 { 0 } else { rng.below(10) };
             match choice {
                 0 | 1 | 2 => {
                     // a different coordinate set each time (so stale connectivity would show)
-                    let g = if rng.chance(0.3) { let mut c = m.clone(); for p in c.xs.iter_mut() { for q in 0..3 { p[q] *= 3.0; } } c } else { distort(&m, rng.range(0.0, 0.4), &mut rng) };
+                    let g = if straddle {
+                        let mut c = m.clone();
+                        let thr = 1.3 * (radius(m.zs[si]) + radius(m.zs[sj]));
+                        let d = [m.xs[sj][0] - m.xs[si][0], m.xs[sj][1] - m.xs[si][1], m.xs[sj][2] - m.xs[si][2]];
+                        let l = (d[0] * d[0] + d[1] * d[1] + d[2] * d[2]).sqrt();
+                        let u = if l > 1e-6 { [d[0] / l, d[1] / l, d[2] / l] } else { [1.0, 0.0, 0.0] };
+                        let r = thr + if (k / 2) % 2 == 0 { -sdelta } else { sdelta };
+                        for q in 0..3 { c.xs[sj][q] = m.xs[si][q] + u[q] * r; }
+                        c
+                    } else if rng.chance(0.3) { let mut c = m.clone(); for p in c.xs.iter_mut() { for q in 0..3 { p[q] *= 3.0; } } c } else { distort(&m, rng.range(0.0, 0.4), &mut rng) };
                     let mut flat: Vec<f64> = g.xs.iter().flat_map(|p| p.to_vec()).collect();
                     // wrong lengths: one or two numbers short or long, a whole atom short or long, empty
-                    if rng.chance(0.2) { match rng.below(7) { 0 => { flat.pop(); } 1 => { flat.pop(); flat.pop(); } 2 => { flat.push(1.0); } 3 => { flat.push(1.0); flat.push(-2.0); }
+                    if !straddle && rng.chance(0.2) { match rng.below(7) { 0 => { flat.pop(); } 1 => { flat.pop(); flat.pop(); } 2 => { flat.push(1.0); } 3 => { flat.push(1.0); flat.push(-2.0); }
                                                               4 => { flat.extend([0.5, 0.5, 0.5]); } 5 => { flat.truncate(flat.len().saturating_sub(3)); } _ => { flat.clear(); } } }
                     ops.push(format!("C {}", hexs(&flat)));
                     let before = state(&w);
